@@ -14,8 +14,8 @@
 (* if every line was consumed (high-water mark) and none failed.              *)
 EXTENDS FedCatalog, Json, TLCExt, IOUtils
 TraceLog == ndJsonDeserialize(IOEnv.TRACE)
-VARIABLE l
-Ev == TraceLog[l]
+VARIABLE ln
+Ev == TraceLog[ln]
 
 Universe(ev) == Catalog[ev.e].universes[ev.u]
 CaseOK(ev) ==
@@ -28,16 +28,16 @@ ExchangeOK(ev) ==
 
 Verdict(ev) == IF ev.k = "c" THEN CaseOK(ev) ELSE ExchangeOK(ev)
 
-TraceInit == l = 1 /\ TLCSet(1, 0) /\ TLCSet(2, 0)
+TraceInit == ln = 1 /\ TLCSet(1, 0) /\ TLCSet(2, 0)
 TraceNext ==
-  /\ l <= Len(TraceLog)
+  /\ ln <= Len(TraceLog)
   /\ LET v == Verdict(Ev)
      IN IF \A i \in DOMAIN v : v[i] THEN TRUE
-        ELSE PrintT(<<"C01_BAD", l, Ev.id, v>>) /\ TLCSet(2, TLCGet(2) + 1)
-  /\ l' = l + 1
-TraceSpec == TraceInit /\ [][TraceNext]_l
+        ELSE PrintT(<<"C01_BAD", ln, Ev.id, v>>) /\ TLCSet(2, TLCGet(2) + 1)
+  /\ ln' = ln + 1
+TraceSpec == TraceInit /\ [][TraceNext]_ln
 
-HighWater == TLCSet(1, IF l > TLCGet(1) THEN l ELSE TLCGet(1))
+HighWater == TLCSet(1, IF ln > TLCGet(1) THEN ln ELSE TLCGet(1))
 TraceAccepted ==
   /\ IF TLCGet(1) = Len(TraceLog) + 1 THEN TRUE ELSE PrintT(<<"TRACE_STUCK_AT_LINE", TLCGet(1)>>) /\ FALSE
   /\ IF TLCGet(2) = 0 THEN TRUE ELSE PrintT(<<"C01_BAD_COUNT", TLCGet(2)>>) /\ FALSE
